@@ -858,6 +858,19 @@ func (p *Parser) evaluateImports(ctx context) ([]Statement, error) {
 					ctx.variables[name] = variable
 				}
 			}
+		case STATEMENT_TYPE_VAR_DEFINITION_CALL_ASSIGNMENT:
+			// Variables which are defined from the return values of a call (var a, b = f()) are definitions too.
+			definedVariable := statement.(VariableDefinitionCallAssignment)
+
+			for _, variable := range definedVariable.Variables() {
+				name := variable.Name()
+				exists = addedVariables[name]
+				addedVariables[name] = true
+
+				if !exists && variable.Public() {
+					ctx.variables[name] = variable
+				}
+			}
 		case STATEMENT_TYPE_FUNCTION_DEFINITION:
 			definedFunction := statement.(FunctionDefinition)
 			name := definedFunction.Name()
